@@ -20,6 +20,9 @@ CHECKS = {
  "C06": dict(engine="integ", technique="property-based testing of the successor function against an independent calendar enumerator plus metamorphic successor laws; model-based run-loop check on a virtual clock",
    text="Exploration: (A) 12k (quick) / 600k (thorough) Hypothesis-generated (specification list, current time) pairs - structured once/period/cron specifications rendered to text, current times biased to denoted instants +/- 1 us, leap day, month/year ends and US/Pacific transition days - where TrigTime.timer_trigger_next must equal the least denoted instant after now computed by an independent enumerator that never parses the string, and satisfy successor laws (strictly later, idempotence, no skip, list = minimum, real elapsed time for cron across DST); (B) 192 / 6400 run-loop cases where a @time_trigger function on the virtual clock must run exactly once per denoted instant with trigger_time equal to it, startup/shutdown once, in both subsystems.",
    note="Trusts astral sun times from Home Assistant and zoneinfo; weekday/today/tomorrow dates are only covered by the laws; nonexistent local times (spring-forward hour) are not used as current time; croniter's mis-reading of degenerate ranges a-a is third-party and not generated.", ref="2.C06"),
+ "C07": dict(engine="integ", technique="property-based testing of the window check against an independent matcher; model-based integration check of guards and hold_off on a virtual clock",
+   text="Exploration: (A) 6k (quick) / 300k (thorough) generated lists of 1-4 positive/negated range()/cron() specifications evaluated by TrigTime.timer_active_check at end points +/- 1 us and random times against an independent matcher; (B) 640 / 24k generated integration histories (state / time / event trigger x @state_active expression x @time_active list x hold_off x decorator order x subsystem; occurrences, guard toggles and direct calls at generated virtual times) compared with a model of 'runs iff guard and window and hold-off'.",
+   note="Trusts astral sun times and Home Assistant's bus; part B keeps >= 0.25 s between occurrences and window edges / hold-off deadlines.", ref="2.C07"),
 }
 NOT_YET = "check not built yet in this round (see DESIGN.md section 2 for the plan)"
 props = [json.loads(l)["id"] for l in open(os.path.join(V, "properties.jsonl"))]
